@@ -59,7 +59,7 @@ class C01(Spec):
                 tasks_core.core_tasks(root, 2 * _tmo(tier), which=("iter_errors", "is_valid", "descend", "is_type")))
 
     def select(self, ob, r):
-        return ob["kind"] in ("F", "P", "T")
+        return ob["kind"] in ("F", "P", "T") and "/F/structure" not in ob["name"]      # structure is C05 / C06
 
     def failure_kinds(self):
         return ("F", "S")
